@@ -111,6 +111,7 @@ class SpecViolation(Exception):
 # --------------------------------------------------------------------------------------------
 NPOS = 4
 NAMES = ["a", "x", "_0"]
+NARGS = NPOS + len(NAMES)      # a position past the positional arguments denotes a named one (rustc only lints that)
 
 
 def refs_ok(case):
@@ -119,12 +120,12 @@ def refs_ok(case):
         # a literal count (`{:21}`) is a number, not a reference: only `{:1$}` / `{:.1$}` denote arguments
         refs = [ph["arg"]] + [ph["spec"][c]["arg"] for c in ("width", "prec") if ph["spec"][c]["k"] == "param"]
         for a in refs:
-            if a["k"] == "int" and int(real(a["txt"])) >= NPOS:
+            if a["k"] == "int" and int(real(a["txt"])) >= NARGS:
                 return False
     for r in case["res"]:
-        if r["ref"]["k"] == "p" and r["ref"]["n"] >= NPOS:
+        if r["ref"]["k"] == "p" and r["ref"]["n"] >= NARGS:
             return False
-        if r["precFrom"] != 99 and r["precFrom"] >= NPOS:
+        if r["precFrom"] != 99 and r["precFrom"] >= NARGS:
             return False
     return True
 
